@@ -644,7 +644,7 @@ STD = {
     "path": ("Path", "str", ["/tmp/x", "a/b", "rel"], []),
     "ipv4": ("IPv4Address", "str", ["127.0.0.1", "10.0.0.255"], ["256.1.1.1", "localhost"]),
     "ipv6": ("IPv6Address", "str", ["::1", "fe80::1"], ["::zz", "1"]),
-    "pattern": ("re.Pattern", "str", ["^a+$", "x|y"], ["(", "[a"]),
+    "pattern": ("re.Pattern", "str", ["^a+$", "x|y"], ["(", "[a", "a{99999999999999999999}"]),
 }
 
 
